@@ -202,6 +202,8 @@ class ObjMachine(Machine):
             return dict(op="copy_check", t=t, how=s.choice(["copy", "data"]),
                         side=s.choice(["copy", "copy", "source"]), mut=s.randint(0, 99),
                         arg=s.randint(0, 99))
+        if r < 0.6:
+            return dict(op="retitle", t=t, arg=s.randint(0, 99))
         kind = s.choice(["platform", "platform", "port_nr", "protocol_nr", "type", "resequence",
                          "sort", "group", "ungroup", "platform_same"])
         return dict(op="transform", t=t, kind=kind, arg=s.randint(0, 99))
@@ -282,10 +284,18 @@ class ObjMachine(Machine):
         if c.line != x.line:
             self._fail("C16.equal-text", f"{cname} {op['how']}: text differs\n{x.line}\n---\n"
                                          f"{c.line}", cls=cname)
-        if norm(c.data()) != norm(x.data()):
+        dx, dc = norm(x.data()), norm(c.data())
+        if slot.get("stale_names"):
+            # AceGroup.name is a snapshot of the heading text; after the heading was edited
+            # without the name, a rebuild legitimately re-derives it: that one field is exempt
+            for d in (dx, dc):
+                for it in d.get("items", []):
+                    if isinstance(it, dict) and isinstance(it.get("items"), list):
+                        it.pop("name", None)
+        if dc != dx:
             from .m_acl import AclMachine
             self._fail("C16.equal-data", f"{cname} {op['how']}: data() differs: "
-                       f"{AclMachine._dict_diff(norm(x.data()), norm(c.data()))}", cls=cname)
+                       f"{AclMachine._dict_diff(dx, dc)}", cls=cname)
         if cname in HAS_EQ and not (c == x):
             self._fail("C16.equal-eq", f"{cname} {op['how']}: copy != source", cls=cname)
         if c.uuid == x.uuid and op["how"] == "copy":
@@ -426,6 +436,23 @@ class ObjMachine(Machine):
         ace = self._pick_ace(o, arg)
         if ace is not None:
             ace.option.line = "log"
+
+    def _op_retitle(self, op):
+        """Edit a heading remark of a grouped ACL (a public, legal change between operations)."""
+        slot = self._slot(op["t"])
+        if slot is None or slot["cls"] != "Acl":
+            return "noop"
+        groups = [it for it in slot["obj"].items if isinstance(it, AceGroup) and it.items
+                  and isinstance(it.items[0], Remark)]
+        if not groups:
+            return "noop"
+        g = groups[op["arg"] % len(groups)]
+        g.items[0].text = f"{gen.HEAD}T{op['arg']}"
+        slot["stale_names"] = True
+        if op["arg"] % 2:
+            g.note = ["retitled"]
+        self.trace.append(("retitle",))
+        return "ok"
 
     # ---- in-place transformations: uuid / note stability
     @staticmethod
